@@ -22,7 +22,9 @@ LEVEL_NOTE = (
     'the ZMQ certificate generator is the real one.')
 RULE = (
     'One evaluation = one (umask, workflow) pair: real Scheduler.install() + '
-    'start() under that umask, stop --now or crash at a seeded point, restart;'
+    'start() under that umask, stop --now or crash at a seeded point (in half '
+    'of the cases the private DB is then restored from a copy, in half the '
+    'private files left behind are opened up with chmod go+r), restart;'
     ' after every start-up the mode of .service/db and of every *.key_secret '
     'under .service is read with stat(). Distinct = distinct umask; '
     'non-trivial = the umask leaves at least one group/other bit open '
@@ -34,7 +36,8 @@ TIERS = {
     'quick': {'n': 4, 'budget_s': 200, 'chunk': 1},
     'thorough': {'n': 16, 'budget_s': 900, 'chunk': 1},
 }
-EXPECTED_PROBES = ['private_db_restored_from_copy', 'restart_checked', 'keys_checked', 'crash_restart_checked']
+EXPECTED_PROBES = ['private_db_restored_from_copy', 'restart_checked', 'keys_checked', 'crash_restart_checked',
+                   'private_files_opened_up_while_down']
 UMASKS_QUICK = [0o000, 0o022, 0o077, 0o002, 0o027, 0o007]
 
 
@@ -130,6 +133,7 @@ def run_one(params, um):
     mc.umask = um
     how = rng.choice(['stop', 'crash'])
     restore = rng.random() < 0.5
+    opened = random.Random(derive_seed(seed, 'c44-open', um)).random() < 0.5
     cmds = [{'incarnation': 0, 'iter': rng.randint(2, 5), 'name': 'stop',
              'kwargs': {'mode': StopMode.REQUEST_NOW}}] if how == 'stop' else []
     case = Case(seed, knobs={'n_tasks': (2, 3), 'span': (2, 3)},
@@ -158,6 +162,20 @@ def run_one(params, um):
                     os.replace(tmp, pri)
                     res.sim.probe('private_db_restored_from_copy')
                     res.sim.fault('db_file_replaced_while_down')
+            if opened:
+                # the operator opened the run directory up while the
+                # scheduler was down (chmod -R go+rX to share it); after a
+                # crash the old key files are still there
+                srv = os.path.join(h.run_dir, '.service')
+                n = 0
+                for f in sorted(glob.glob(os.path.join(srv, '*.key_secret'))
+                                ) + [os.path.join(srv, 'db')]:
+                    if os.path.exists(f):
+                        os.chmod(f, stat.S_IMODE(os.stat(f).st_mode) | 0o044)
+                        n += 1
+                if n:
+                    res.sim.probe('private_files_opened_up_while_down')
+                    res.sim.fault('private_files_chmod_while_down')
             info = h.run_once()
             res.stops.append(info.reason)
     old = os.umask(um)
